@@ -864,7 +864,9 @@ C07_HandlerReleased ==
 \* ---- C04 -------------------------------------------------------------------
 RealCause == tun.causes \cap {"close", "ctxcancel", "fail", "ctxdone", "stop", "teardown", "srvgone", "peerend"} # {}
 QuietWire == q.qc2s = 0 /\ q.qs2c = 0
-C04_CallsEnd == (q.at /\ q.chdone) => \A b \in BlockedOps : b[1] # "c"
+\* (a goroutine the harness holds at a gate may itself hold the lock the call's completion needs:
+\* judged at the quiescent points where nothing is held)
+C04_CallsEnd == (q.at /\ q.chdone /\ q.parked = <<>>) => \A b \in BlockedOps : b[1] # "c"
 C04_HandlersReleased ==
   (q.at /\ tun.serveRet /\ q.parked = <<>>) =>
      /\ \A i \in 1..Len(q.h) : q.h[i][2] = 1
